@@ -53,7 +53,7 @@ Proof.
     destruct p; auto; unfold guard in G; rewrite C in G; cbn [err_result andb negb] in G;
       try discriminate G;
       (match goal with |- context [hp_rest _ _ ?p _ _] => destruct (closed_hp_rest s now p pc sr H eq_refl C) as [A B] end; rewrite A, B; auto).
-  - unfold set_peer_params. prj. auto.
+  - unfold set_peer_params; destruct (negotiate (cfg_idle s) pi); prj; auto.
   - pose proof H as H'. unfold Inv in H'. destruct H' as (_ & I2 & I3 & I4 & _).
     destruct (I2 C) as [Ti Tk]. unfold handle_timeout, expired. rewrite Ti. prj.
     destruct (t_close s) as [d|]; [destruct (d <=? now)|]; prj; rewrite ?Tk; prj; auto.
@@ -142,7 +142,7 @@ Proof.
       destruct (drained_hp_rest s1 now p pc sr I1) as [A B]; [rewrite S1; exact G|];
       unfold newly_drained in A; rewrite S1, Q1 in *; split; [lia|exact B]
     end.
-  - unfold set_peer_params. prj. destruct (is_drained (st s)); split; auto; cbn; lia.
+  - unfold set_peer_params; destruct (negotiate (cfg_idle s) pi); prj; destruct (is_drained (st s)); split; auto; cbn; lia.
   - pose proof H as H'. destruct H' as (_ & I2 & I3 & I4 & I5 & _).
     unfold handle_timeout, expired. casest s; prj; sat;
       repeat (first [progress prj | rewrite Est | split_if]); split; auto; try lia; try congruence.
@@ -228,7 +228,7 @@ Proof.
       destruct (close_timer_hp_rest s1 now p pc sr I1) as [A B]; [rewrite S1; exact G|];
       rewrite S1, Q1 in *; split; assumption
     end.
-  - unfold set_peer_params. prj. split; intros; [destruct (st s); discriminate|reflexivity].
+  - unfold set_peer_params; destruct (negotiate (cfg_idle s) pi); prj; (split; intros; [destruct (st s); discriminate|reflexivity]).
   - pose proof H as H'. destruct H' as (_ & I2 & I3 & I4 & I5 & _).
     unfold handle_timeout, expired. casest s; prj; sat;
       repeat (first [progress prj | rewrite Est | split_if]); split; intros; try discriminate; auto; try congruence.
@@ -405,7 +405,8 @@ Proof.
       * split; auto.
     + destruct (hp_rest_idle s now p pc sr) as [[T|T] I]; rewrite T, I; split; auto.
       right; left; split; auto; discriminate.
-  - unfold set_peer_params. prj. split; [right; eauto|]. right; left; split; auto; discriminate.
+  - unfold set_peer_params; destruct (negotiate (cfg_idle s) pi); prj; (split; [right; eauto|]);
+      [right; left; split; auto; discriminate | left; reflexivity].
   - unfold handle_timeout, expired, kill.
     repeat (first [progress prj | split_if]); split; auto; right; left; split; auto; discriminate.
   - unfold poll. destruct other; prj; [|destruct (error s); prj]; split; auto; right; left; split; auto; discriminate.
@@ -449,7 +450,7 @@ Proof.
       (intros E; exfalso; revert E; apply hp_rest_not_timedout;
        [destruct (_ && negb (is_closed (st s))); [unf2; repeat (split_if; prj)|]; exact En
        |destruct (_ && negb (is_closed (st s))); rewrite ?auth_st; exact C]).
-    + unfold set_peer_params. prj. congruence.
+    + unfold set_peer_params; destruct (negotiate (cfg_idle s) pi); prj; congruence.
     + unfold handle_timeout, expired, kill. intros E.
       destruct (t_idle s) as [d|] eqn:Ti.
       * destruct (d <=? now) eqn:L.
@@ -513,8 +514,9 @@ Proof.
     + rewrite A in Ti. destruct (rx_auth s o) eqn:RX; [specialize (R eq_refl); congruence|].
       rewrite app_nil_r. apply HK; assumption.
     + cbn [rx_auth]. rewrite app_nil_r. cbn [stable] in ST. rewrite Td in ST.
-      unfold step', step in Ti. cbn [step_gen fst] in Ti. unfold set_peer_params in Ti. prj.
-      rewrite Ti in ST. destruct (idle_timeout s) as [i1|] eqn:I1; [|discriminate ST].
+      unfold step', step in Ti. cbn [step_gen fst] in Ti. unfold set_peer_params in Ti.
+      destruct (negotiate (cfg_idle s) p) as [i'|] eqn:N; prj; [|discriminate Ti].
+      inversion Ti; subst i'. try rewrite N in ST. destruct (idle_timeout s) as [i1|] eqn:I1; [|discriminate ST].
       specialize (HK d i1 Td I1). eapply Forall_impl; [|exact HK]. cbn. intros; lia.
   - assert (TO : timed o = true) by (destruct o; cbn in RS |- *; try discriminate RS; reflexivity).
     assert (NP : idle_timeout (step' s o) = idle_timeout s).
@@ -566,3 +568,29 @@ Proof.
   intros s (I1 & _) C. destruct (error s) eqn:E; [|reflexivity].
   assert (is_closed (st s) = true) by (apply I1; discriminate). congruence.
 Qed.
+
+(** * No negotiated idle timeout, no armed Idle timer (holds since the repair of the stale idle
+    timer: [set_peer_params] stops the timer when the negotiation yields "none") *)
+Definition idle_armed_ok (s : state) : Prop := idle_timeout s = None -> t_idle s = None.
+
+Lemma idle_armed_step : forall s o, idle_armed_ok s -> idle_armed_ok (step' s o).
+Proof.
+  intros s o H. unfold idle_armed_ok in *.
+  destruct (idle_step s o) as [A B]. intros N.
+  destruct A as [A|[p ->]].
+  - rewrite A in N. destruct B as [B|[[B _]|(i0 & I0 & _)]].
+    + exact B.
+    + rewrite B. exact (H N).
+    + congruence.
+  - revert N. unfold step', step. cbn [step_gen fst]. unfold set_peer_params.
+    destruct (negotiate (cfg_idle s) p); prj; [discriminate|reflexivity].
+Qed.
+
+Lemma idle_armed_run : forall h s, idle_armed_ok s -> idle_armed_ok (run_state s h).
+Proof.
+  induction h as [|o h IH]; intros s H; [exact H|].
+  cbn [run_state fold_left]. apply IH. apply idle_armed_step. exact H.
+Qed.
+
+Lemma idle_armed_init : forall i k, idle_armed_ok (init i k).
+Proof. intros i k _. reflexivity. Qed.
